@@ -347,7 +347,8 @@ def fam_lag(rnd, i):
         for _ in range(cap + 1):
             steps.append(fs("chmod", tgt))
             steps.append(fs("chmod", ("d1", "n2")))
-    hist = rnd.choice(["mv_rm", "mv_rm", "rm_remove", "mv_remove", "mv_mvback", "rm_recreate_add", "mv_write", "rm_only", "mv_only", "mv_over"])
+    hist = rnd.choice(["mv_rm", "mv_rm", "rm_remove", "mv_remove", "mv_mvback", "rm_recreate_add", "mv_write", "rm_only", "mv_only", "mv_over",
+                       "rm_readd_fails", "mv_readd_fails"])
     moved = ("d1", "m1")
     if hist == "mv_rm":
         steps += [fs("rename", tgt, to=moved), fs("rmdir" if isdir else "unlink", moved)]
@@ -367,6 +368,11 @@ def fam_lag(rnd, i):
         steps += [fs("rename", tgt, to=moved)]
     elif hist == "mv_over":
         steps += [fs("rename", ("d1", "n2"), to=tgt)] if not isdir else [fs("rename", tgt, to=moved)]
+    elif hist == "rm_readd_fails":
+        # the listed path is added again although it is gone: the Add fails, and what is still queued for the old watch is delivered
+        steps += [fs("rmdir" if isdir else "unlink", tgt), call(w, "add", tgt, "rel")]
+    elif hist == "mv_readd_fails":
+        steps += [fs("rename", tgt, to=moved), call(w, "add", tgt, "rel")]
     # consumer behaviour while the control calls are made
     beh = rnd.choice(["none", "one", "events_only", "all"])
     if beh == "one":
@@ -648,6 +654,11 @@ def fam_readfault(rnd, i):
     steps = [fs("mkdir", ("d1",)), fs("create", ("d1", "n1")), new(w, rnd.choice([0, 0, 2])), call(w, "add", ("d1",), "rel")]
     if rnd.random() < 0.5:
         steps += [fs("chmod", ("d1", "n1")), drain(w)]
+    if rnd.random() < 0.12:
+        # a long run of failing reads, each one received, then Close: it returns at once however many reads failed before
+        steps += [{"s": "fault", "w": w, "recurse": True}] + [recv(w, "err") for _ in range(15)] + [{"s": "fault", "w": w, "recurse": False}]
+        steps += [call(w, "close"), drain(w), obs(w)]
+        return steps
     steps += [{"s": "fault", "w": w, "recurse": True}, {"s": "fault", "w": w, "recurse": False}]
     mode = rnd.choice(["drain_then_close", "close_pending", "calls_pending", "late_close"])
     if mode == "drain_then_close":
@@ -714,7 +725,8 @@ def fam_recerr(rnd, i):
                 steps.append(call(w, "add", ("r",) if d == ("r", "sub") else ("r", "sub"), "rel"))
             else:
                 steps.append(call(w, "remove", ("r", "nothere"), "rel"))
-        steps += [drain(w), fs("create", d + ("f1",)), drain(w), obs(w), call(w, "close"), drain(w), obs(w)]
+        steps += [drain(w), fs("create", d + ("f1",)), drain(w), fs("chmod", x), drain(w), fs("rename", x, to=d + ("x2",)), drain(w), obs(w),
+                  call(w, "close"), drain(w), obs(w)]
     elif mode == "close":
         steps += [call(w, "close"), drain(w), obs(w)]
     else:
